@@ -4,6 +4,7 @@ package main
 // by the symbolic interpreter.
 
 import (
+	"strings"
 	"crypto/sha256"
 	"encoding/binary"
 	"fmt"
@@ -13,6 +14,21 @@ import (
 
 	"golang.org/x/tools/go/ssa"
 )
+
+// fixedChoices (env VCHECK_FIX="name=value,...") pins vChoose results; for debugging only.
+var fixedChoices = func() map[string]int {
+	m := map[string]int{}
+	for _, kv := range strings.Split(os.Getenv("VCHECK_FIX"), ",") {
+		var k string
+		var v int
+		if i := strings.IndexByte(kv, '='); i > 0 {
+			k = kv[:i]
+			fmt.Sscanf(kv[i+1:], "%d", &v)
+			m[k] = v
+		}
+	}
+	return m
+}()
 
 func prfExpand(seed []byte, n int) []byte {
 	var out []byte
@@ -80,7 +96,12 @@ func registerVAPI(I map[string]intrinsicFn) {
 			}
 			return w.tc.Const(64, uint64(k))
 		}
-		k := w.choose(n)
+		var k int
+		if fv, ok := fixedChoices[name]; ok && fv < n {
+			k = fv
+		} else {
+			k = w.choose(n)
+		}
 		w.choices = append(w.choices, fmt.Sprintf("%s=%d", name, k))
 		// record as a (concrete) input for replay
 		v := w.tc.Var(full, 32)
